@@ -448,7 +448,10 @@ def api_c_reset(wi, is_table, sequence, last_token, columns_def, after_columns, 
     from simple_ddl_parser import DDLParser
     firsts = ["CREATE TABLE z ( a int CHECK ( a > 1 ) ) ;", "CREATE SEQUENCE q START 1 ;", "ALTER TABLE z ADD c int ;",
               "CREATE TABLE z LIKE y ;", "CREATE TABLE z ( a MAP < int , int > ) ;", "CREATE TABLE z ( a int ) STORED AS x ;",
-              "CREATE TABLE z ( a int ) ;\nALTER TABLE z ADD CONSTRAINT k CHECK ( a > 1 ) ;"]
+              "CREATE TABLE z ( a int ) ;\nALTER TABLE z ADD CONSTRAINT k CHECK ( a > 1 ) ;",
+              # statements that leave the bracket counter / other flags off balance: an unpaired '<' outside a CHECK
+              "CREATE VIEW v AS SELECT id FROM o WHERE amount < 5 ;", "CREATE TABLE z ( a int ) ;\nCREATE INDEX i1 ON z ( a ) WHERE a < 5 ;",
+              "CREATE TABLE z ( a int , b int"]
     seconds = ["CREATE TABLE t ( a int , b varchar ( 3 ) ) ;", "CREATE SEQUENCE s INCREMENT BY 2 ;", "CREATE INDEX i ON z ( a ) ;",
                "CREATE TABLE t ( a MAP < int , int > , b ARRAY < int > ) ;", "CREATE TABLE t ( a int ) STORED AS x ;", "ALTER TABLE z ADD c int ;"]
     for f in firsts:
